@@ -16,19 +16,20 @@ func (v *ScriptView) writeCreateSQLForATable(
 ) {
 	v.stringBuilder.WriteString(fmt.Sprintf("CREATE TABLE %s(\n", tableName))
 	var foreignKeyConstraints, primaryKeys, attrNames []string
-	var lineNumbers []int32
-	lineNumberMap := map[int32]string{}
+	// Columns are written in source line order; columns that came from different files can share a line number, so
+	// the name breaks ties.
+	lineOf := func(columnName string) int32 {
+		return table.AttrDefs[columnName].GetSourceContext().GetStart().GetLine() // nolint:staticcheck
+	}
 	for columnName := range table.AttrDefs {
-		column := table.AttrDefs[columnName]
-		lineNumber := column.GetSourceContext().GetStart().GetLine() // nolint:staticcheck
-		lineNumberMap[lineNumber] = columnName
-		lineNumbers = append(lineNumbers, lineNumber)
+		attrNames = append(attrNames, columnName)
 	}
-	sort.Slice(lineNumbers, func(i, j int) bool { return lineNumbers[i] < lineNumbers[j] })
-	for _, lineNo := range lineNumbers {
-		attrName := lineNumberMap[lineNo]
-		attrNames = append(attrNames, attrName)
-	}
+	sort.Slice(attrNames, func(i, j int) bool {
+		if li, lj := lineOf(attrNames[i]), lineOf(attrNames[j]); li != lj {
+			return li < lj
+		}
+		return attrNames[i] < attrNames[j]
+	})
 	var tableData string
 	for _, attrName := range attrNames {
 		attrType := table.AttrDefs[attrName]
